@@ -6,6 +6,7 @@ import (
 	"io"
 	"strings"
 	"text/scanner"
+	"unicode/utf8"
 )
 
 type lexFn func(*lexer) lexFn
@@ -190,7 +191,12 @@ func (l *lexer) errorf(format string, args ...any) lexFn {
 func (l *lexer) position() (int, int) {
 	newLinesInString := strings.Count(l.s, "\n")
 	line := len(l.pos) - newLinesInString
-	column := 1 + (l.pos[line-1]) - len(l.s)
+	// l.pos counts runes per line: subtract the runes of the pending literal that are on its first line
+	firstLine := l.s
+	if i := strings.Index(l.s, "\n"); i >= 0 {
+		firstLine = l.s[:i+1]
+	}
+	column := 1 + (l.pos[line-1]) - utf8.RuneCountInString(firstLine)
 	return line, column
 }
 
